@@ -260,12 +260,41 @@ func mutate(r *gen.Rng, bases []baseTable, bi int) (data []byte, kind string) {
 			}
 			var zb bytes.Buffer
 			zw, _ := zlib.NewWriterLevel(&zb, 9)
-			zw.Write(make([]byte, []int{1 << 16, 1 << 22, 1 << 26}[r.Intn(3)]))
+			inflated := []int{1 << 16, 1 << 22, 1 << 26, 1 << 27}[r.Intn(4)]
+			zw.Write(make([]byte, inflated))
 			zw.Close()
 			nd := append([]byte(nil), d[:p+4]...)
+			// the block length field: as it was, smaller than the block header (the
+			// inflate limit is computed from it), honest, or maximal
+			start := p
+			if p == hs {
+				start = 0
+			}
+			var bl uint32
+			switch r.Intn(5) {
+			case 0:
+				bl = uint32(nd[p+1])<<16 | uint32(nd[p+2])<<8 | uint32(nd[p+3])
+			case 1:
+				bl = uint32(r.Intn(p - start + 4))
+			case 2:
+				bl = uint32(p - start + 4 + r.Intn(3))
+			case 3:
+				bl = uint32(p-start+4+inflated) & 0xffffff
+			case 4:
+				bl = 0xffffff
+			}
+			nd[p+1], nd[p+2], nd[p+3] = byte(bl>>16), byte(bl>>8), byte(bl)
 			nd = append(nd, zb.Bytes()...)
 			nd = append(nd, src[body:]...)
 			d = nd
+			if r.Chance(0.6) {
+				// raise the table's block size so that one read covers the whole stream
+				v := []uint32{0xffffff, 1 << 20, uint32(len(d))}[r.Intn(3)]
+				d[5], d[6], d[7] = byte(v>>16), byte(v>>8), byte(v)
+				f := d[len(d)-fsz:]
+				copy(f[:hs], d[:hs])
+				repair = true
+			}
 			break
 		}
 	case 12:
